@@ -235,27 +235,28 @@ def gen_key(rng, i, kind=None):
 
 
 def gen_lit(rng, keys_j):
-    """a literal that evaluates to itself: ints, strings, None, nested plain containers; sometimes *almost* a key"""
+    """a literal that evaluates to itself: ints, strings, None, nested plain containers; *almost* keys (never equal to
+    a key of the graph: keys are small ints / '' / () / 'k<i>' / ('x', i), literals use ints >= 50, 'lit', ('x', 77)...)"""
     r = rng.random()
     if r < 0.3:
-        return rng.randint(0, 9)
+        return rng.randint(50, 59)
     if r < 0.5:
-        return rng.choice(["lit", "zz", "k", "x", ""])
+        return rng.choice(["lit", "zz", "k", "x", " "])
     if r < 0.55:
         return None
     if r < 0.65:
-        return {"t": ["x", 77]} if rng.random() < 0.5 else {"t": []}
+        return {"t": ["x", 77]} if rng.random() < 0.5 else {"t": [None]}
     if r < 0.75:
-        return {"l": [rng.randint(0, 5), "p"]}
+        return {"l": [rng.randint(50, 55), "p"]}
     if r < 0.8:
-        return {"d": [["a", rng.randint(0, 5)]]}
+        return {"d": [["a", rng.randint(50, 55)]]}
     if r < 0.85:
-        return {"t": [rng.randint(0, 3), "nokey"]}
+        return {"t": [rng.randint(50, 53), "nokey"]}
     if r < 0.9:
         return {"fn": rng.randrange(6)}
     if r < 0.95:      # a tuple that contains a list: unhashable, never a key
         return {"t": ["x", {"l": [1]}]}
-    return {"q": rng.choice([1, {"l": [1, 2]}, {"t": [{"fn": 0}, 1]}, "k0"])}
+    return {"q": rng.choice([51, {"l": [51, 52]}, {"t": [{"fn": 0}, 51]}, "k1"])}
 
 
 def gen_term(rng, prev, depth, flavour):
@@ -275,11 +276,11 @@ def gen_term(rng, prev, depth, flavour):
         return {"t": [{"q": gen_lit(rng, prev)}]}
     if r < 0.88:
         if "dictref" in flavour:
-            return {"d": [[rng.choice(["a", "b", 1, {"t": ["x", 0]}][i:i + 1] or ["c"]), gen_term(rng, prev, depth - 1, flavour)]
+            return {"d": [[rng.choice(["a", "b", 61, {"t": ["x", 77]}][i:i + 1] or ["c"]), gen_term(rng, prev, depth - 1, flavour)]
                           for i in range(rng.randint(1, 3))]}
-        return {"d": [[["a", "b", 1][i], gen_lit(rng, prev)] for i in range(rng.randint(0, 3))]}
+        return {"d": [[["a", "b", 61][i], gen_lit(rng, prev)] for i in range(rng.randint(0, 3))]}
     if "tupleref" in flavour:
-        return {"t": [rng.choice([1, "s", None])] + [gen_term(rng, prev, depth - 1, flavour) for _ in range(rng.randint(1, 2))]}
+        return {"t": [rng.choice([51, "s", None])] + [gen_term(rng, prev, depth - 1, flavour) for _ in range(rng.randint(1, 2))]}
     return gen_lit(rng, prev)
 
 
